@@ -6,6 +6,7 @@ From Qryn Require Import model.IngestRobust model.IngestPipe proofs.IngestPipePr
 From Qryn Require Import model.Ingest model.PushHandler model.IngestSpec model.IngestFresh proofs.IngestBase proofs.IngestAck
   proofs.IngestSpecProofs proofs.IngestPromises model.IngestSched model.PushConfirm proofs.IngestShapes
   model.IngestBridge proofs.IngestBridgeProofs.
+From Qryn Require model.Spans model.IngestWidths proofs.IngestWidthsProofs.
 Import ListNotations.
 
 (* If every submitted request is the table of its rows, then for every configuration and every interleaving each
@@ -215,3 +216,40 @@ Proof.
   pose proof (H (PLogs demo_wiring 0 [LcEntries unequal_event])) as X. rewrite unequal_slices_tear_the_request in X. discriminate.
 Qed.
 Print Assumptions parser_tables_need_the_decoder_contract_refuted.
+
+(* ---- FixedString widths (trace_id FixedString(16), span_id FixedString(8)): outside the cell model, process death ----------
+
+   ch-go's ColFixedStr.Append panics when len(b) differs from the size the acquirer set; nothing on the doPush goroutine
+   recovers.  Over the byte-level rows of C06's model/Spans.v: ProcessRequest of the span service dies exactly when the
+   request holds a trace id that is not 16 bytes or a span id that is not 8 bytes wide (tags: the same) ... *)
+Theorem span_request_panics_iff : forall tbuf sbuf rows,
+  IngestWidths.process_span_ids tbuf sbuf rows = None <->
+  exists r, In r rows /\ (String.length (Spans.t_trace r) <> 16%nat \/ String.length (Spans.t_span r) <> 8%nat).
+Proof. exact IngestWidthsProofs.span_request_panics_iff. Qed.
+Print Assumptions span_request_panics_iff.
+
+Theorem tag_request_panics_iff : forall tbuf sbuf rows,
+  IngestWidths.process_tag_ids tbuf sbuf rows = None <->
+  exists r, In r rows /\ (String.length (Spans.a_trace r) <> 16%nat \/ String.length (Spans.a_span r) <> 8%nat).
+Proof. exact IngestWidthsProofs.tag_request_panics_iff. Qed.
+Print Assumptions tag_request_panics_iff.
+
+(* ... and NO request the parsers build reaches it: for every sequence of onSpan calls with ids of ANY widths (C06's on_span =
+   builder.go onSpan at byte level: a call with another width is refused with 400 before any append), every chunk the parser
+   can send -- any part of the rows accepted before the first refused call -- passes both FixedString columns of both
+   services, whatever the buffers hold.  onSpan is the only place under writer/ that appends to a trace-id / span-id slice
+   (regenerated on every run and compared with id_producers_model); the witness of the refutation side is
+   IngestWidthsProofs.short_id_kills_the_process: a 15-byte id, which onSpan refuses. *)
+Theorem parser_span_requests_never_reach_the_width_panic : forall calls chunk tb sb tb' sb',
+  incl chunk (IngestWidths.accepted calls) ->
+  IngestWidths.process_span_ids tb sb (map fst chunk) <> None /\
+  IngestWidths.process_tag_ids tb' sb' (concat (map snd chunk)) <> None.
+Proof. exact IngestWidthsProofs.parser_span_requests_never_reach_the_width_panic. Qed.
+Print Assumptions parser_span_requests_never_reach_the_width_panic.
+
+(* In terms of the REGENERATED onSpan (run at cell level by model/IngestBridge.v): with the width check as its first statement
+   (hp_width_check, regenerated), a call appends to the batch only when its ids are 16 and 8 bytes wide. *)
+Theorem regenerated_on_span_appends_only_fixed_widths : forall h sf af b s b' sent,
+  hp_width_check h = true -> on_span_cells h sf af b s = CStOk b' sent -> se_tid s = 16%N /\ se_sid s = 8%N.
+Proof. exact IngestWidthsProofs.regenerated_on_span_appends_only_fixed_widths. Qed.
+Print Assumptions regenerated_on_span_appends_only_fixed_widths.
